@@ -1,0 +1,5 @@
+// +build !verif
+
+package node
+
+func verifPoint(name string) {}
